@@ -79,6 +79,18 @@ def check(case):
                 raise Violation(f"{lib}-Xbar", f"Xbar('Ham',{der}) un-rotated differs from explicit sum by {d:.2e}")
             if reldiff(Xb, np.conj(np.swapaxes(Xb, 1, 2))) > TOL:
                 raise Violation("hermiticity", f"{lib} Xbar('Ham',{der}) not Hermitian")
+        # the same R-vector object re-used for a second grid shift (sequence of API calls on one object)
+        if lib != "klist":
+            dK2 = (dK + np.array(case.get("dK2", [0.31, 0.17, 0.43]))) % 1
+            kpts2 = wbsys.mp_points(NKFFT) + dK2[None, :]
+            rv = dk.rvec
+            rv.set_fft_R_to_k(NK=NKFFT, num_wann=model.nw, fftlib=lib, dK=dK2.copy())
+            got2 = rv.R_to_k(rv.apply_expdK(np.array(s.get_R_mat("Ham"), copy=True)), der=der, hermitian=True)
+            ref2 = np.array([model.Xk("Ham", kk, der=der) for kk in kpts2])
+            d = reldiff(got2, ref2)
+            if d > TOL:
+                raise Violation(f"{lib}-second-shift", f"Ham der={der} after re-setting dK on the same Rvectors object: "
+                                                       f"rel diff {d:.2e}")
     for key in ("Ham", "AA"):
         for lib in ("numpy", "slow", "klist"):
             d = reldiff(results[("fftw", key)], results[(lib, key)])
